@@ -36,6 +36,40 @@ fn n_trunc_longest_fitting_prefix_on_a_char_boundary() {
     }
 }
 
+// N-char (C18, C24): RowNormalizer::normalize_char_value(s, n) - the stored form of a CHAR(n) value - is EXACTLY n bytes long: the longest prefix of s that fits
+// on a character boundary, then spaces; and a stored value is a FIXED POINT (normalizing it again - every reload and UPDATE does - changes nothing).
+// Every valid UTF-8 string of up to 3 bytes (1-, 2- and 3-byte characters; class B(3 bytes)) and every n <= 4.
+#[kani::proof]
+#[kani::unwind(6)]
+fn n_char_exactly_n_bytes_and_a_fixed_point() {
+    let bytes: [u8; 3] = kani::any();
+    let len: usize = kani::any();
+    kani::assume(len <= 3);
+    let n: usize = kani::any();
+    kani::assume(n <= 4);
+    if let Ok(s) = core::str::from_utf8(&bytes[..len]) {
+        let r = super::RowNormalizer::normalize_char_value(s, n);
+        assert!(r.len() == n, "N-char#exactly_n_bytes");
+        let kept = truncate_to_char_boundary(s, n);
+        let mut i = 0;
+        while i < n {
+            if i < kept.len() {
+                assert!(r.as_bytes()[i] == kept.as_bytes()[i], "N-char#starts_with_the_longest_fitting_prefix");
+            } else {
+                assert!(r.as_bytes()[i] == b' ', "N-char#then_spaces");
+            }
+            i += 1;
+        }
+        let r2 = super::RowNormalizer::normalize_char_value(&r, n);
+        assert!(r2.len() == n, "N-char#fixed_point_length");
+        let mut j = 0;
+        while j < n {
+            assert!(r2.as_bytes()[j] == r.as_bytes()[j], "N-char#fixed_point");
+            j += 1;
+        }
+    }
+}
+
 #[kani::proof]
 fn n_trunc_canary_must_fail() {
     let x: u8 = kani::any();
